@@ -5,7 +5,7 @@ from vf.driver import Group, Unit, import_units
 PROPERTY = 'C05'
 LEVEL = 'proof'
 GROUPS, UNITS = {}, []
-_g, _u = import_units('C03', lambda n: re.match(r'extendPol$|NTT_iters_schedule$|INTT_wrapper$|reversePermutation(_inplace_ext)?$', n))
+_g, _u = import_units('C03', lambda n: re.match(r'extendPol$|NTT_iters_schedule$|NTT_butterfly$|INTT_wrapper$|reversePermutation(_inplace_ext)?$|BR$', n))
 GROUPS.update(_g); UNITS += _u
 
 TRUSTED_BASE = ['units of props/C03 (M2 C-ification, outlined batch data path, ghost monitors)']
